@@ -843,6 +843,16 @@ def m2_barycentres(ctx):
                     ctx.undecided("C07-M2", site, f"{q}: a sum over a filtered / nested collection is divided; the number of terms is not recognised", "")
                     continue
                 d = b.resolve(node.right, at=node)
+                if isinstance(coll, ast.Call) and isinstance(coll.func, ast.Name) and coll.func.id == "range" and len(coll.args) == 1:
+                    # sum(x[k] for k in range(n)) / n
+                    n += 1
+                    same = au.same(b.resolve(coll.args[0], at=node), d)
+                    if same or isinstance(au.const(d), (int, float)) or (isinstance(d, ast.Call) and au.call_tail(d) == "len"):
+                        ctx.check(same, "C07-M2", site, f"{q}: a sum of `{au.src(coll.args[0])}` terms is divided by `{au.src(node.right)}`",
+                                  "a mean is the sum of the terms divided by their number", note=f"{q}: sum over range(n) divided by n")
+                    else:
+                        ctx.undecided("C07-M2", site, f"{q}: the number of terms of a sum over a range and its divisor could not be related", "")
+                    continue
                 if isinstance(d, ast.Call) and au.call_tail(d) == "len" and len(d.args) == 1 and isinstance(d.func, ast.Name):
                     ok = au.same(b.resolve(d.args[0], at=node), b.resolve(coll, at=node)) or F.key(d.args[0], node) == F.key(coll, node)
                     k1, k2 = _len_key(F, b, d.args[0], node), _len_key(F, b, coll, node)
@@ -885,6 +895,16 @@ def _mode_holds(test, pol, mode, wname):
     """truth of a guard under weight == mode; None when the guard does not speak about the weight, "?" when it cannot be evaluated"""
     if wname is None or wname not in au.names(test):
         return None
+    if isinstance(test, ast.UnaryOp) and isinstance(test.op, ast.Not):
+        r = _mode_holds(test.operand, not pol, mode, wname)
+        return r
+    if isinstance(test, ast.BoolOp):
+        # every operand must speak about the weight alone
+        vals = [_mode_holds(v, True, mode, wname) for v in test.values]
+        if any(v in (None, "?") for v in vals):
+            return "?"
+        truth = all(vals) if isinstance(test.op, ast.And) else any(vals)
+        return truth == pol
     val = None
     if isinstance(test, ast.Compare) and len(test.ops) == 1:
         l, r = test.left, test.comparators[0]
@@ -1093,7 +1113,15 @@ def w1_interpolation(ctx):
             und, bad = [], []
 
             def active(st):
-                res = [(t, pol, _mode_holds(t, pol, mode, wname)) for t, pol in H.facts(st, toplevel=False)]
+                fs = []
+                for t, pol in H.facts(st, toplevel=True):
+                    # a local flag computed from the weight (`take_mean = weight == "uniform"`) stands for its definition
+                    if isinstance(t, ast.Name) and t.id != wname:
+                        d = C.b.reaching(t.id, st)
+                        if d is not None and wname in au.names(d):
+                            t, pol = au.strip_not(d, pol)
+                    fs.append((t, pol))
+                res = [(t, pol, _mode_holds(t, pol, mode, wname)) for t, pol in fs]
                 on = all(r in (None, True) for _, _, r in res)
                 foreign = [t for t, pol, r in res if r is None or r == "?"]
                 return on, foreign
@@ -1267,7 +1295,7 @@ def w1_interpolation(ctx):
                             else:
                                 und.append("the position of the division relative to the accumulation loop is not one the rule reads")
                         if not bad and not und:
-                            if dk != acc_key and not (dk.startswith("$i") and acc_key.startswith(("$e", "$i"))):
+                            if dk != acc_key and same_loop and not (dk.startswith("$i") and acc_key.startswith(("$e", "$i"))):
                                 und.append("the element divided and the element accumulated are keyed differently")
                             elif want[0] == "tot":
                                 if dtext != f"{want[1]}[{dk}]":
@@ -1724,15 +1752,27 @@ def x1_primitives(ctx):
     if ret is not None:
         cands.append(sym.Bindings(V).resolve(ret.value, at=ret))
     for cand in cands:
-        names = {n.value.id for n in ast.walk(cand) if isinstance(n, ast.Subscript) and isinstance(n.value, ast.Name)}
-        if len(names) != 1:
+        bases = set()
+
+        def matrix_atom(x, bases=bases):
+            """M[i, j] / M[i][j] of any matrix expression M -> atom M<i><j>"""
+            if isinstance(x, ast.Subscript) and isinstance(x.slice, ast.Tuple) and len(x.slice.elts) == 2 and all(isinstance(au.const(k), int) for k in x.slice.elts):
+                bases.add(au.src(x.value))
+                return "M%d%d" % tuple(au.const(k) for k in x.slice.elts)
+            if isinstance(x, ast.Subscript) and isinstance(x.value, ast.Subscript) and isinstance(au.const(x.slice), int) and isinstance(au.const(x.value.slice), int):
+                bases.add(au.src(x.value.value))
+                return "M%d%d" % (au.const(x.value.slice), au.const(x.slice))
+            return None
+        got0 = sym.to_poly(cand, atom_of=matrix_atom)
+        if len(bases) != 1:
             continue
-        mname = next(iter(names))
+        mname = "M"
+        _comp_atom_m = matrix_atom
         a = lambda i, j: Poly.atom(f"{mname}{i}{j}")
         want = Poly()
         for perm, sgn in (((0, 1, 2), 1), ((1, 2, 0), 1), ((2, 0, 1), 1), ((0, 2, 1), -1), ((1, 0, 2), -1), ((2, 1, 0), -1)):
             want = want + (a(0, perm[0]) * a(1, perm[1]) * a(2, perm[2])).scale(sgn)
-        got = sym.to_poly(cand, atom_of=_comp_atom)
+        got = got0
         if not _opaque(got):
             ok = got == want
             break
@@ -1768,14 +1808,27 @@ def x1_primitives(ctx):
     qc, qn, qd = H.factors(e) if e is not None else (None, [], [])
     if e is not None and len(qn) == 1 and not qd:
         terms = H.additive_terms(qn[0])
-        sets = []
+        sets, coefs = [], []
         for s, t in terms:
-            if s == 1 and isinstance(t, ast.Call) and au.call_tail(t) == "triangle_area" and all(isinstance(a, ast.Name) for a in t.args):
-                sets.append(frozenset(a.id for a in t.args))
+            tc, tn, td = H.factors(t)
+            if s != 1 or td or len(tn) != 1:
+                continue
+            x = tn[0]
+            if isinstance(x, ast.Call) and au.call_tail(x) == "triangle_area" and all(isinstance(a, ast.Name) for a in x.args):
+                sets.append(frozenset(a.id for a in x.args))
+                coefs.append(tc)
+            elif isinstance(x, ast.Call) and au.call_tail(x) == "norm":
+                c = x.args[0] if x.args else (x.func.value if isinstance(x.func, ast.Attribute) else None)
+                if isinstance(c, ast.Call) and au.call_tail(c) == "cross" and len(c.args) == 2:
+                    d = [_diff(a) for a in c.args]
+                    pts = {p_ for dd in d if dd for p_ in dd}
+                    if None not in d and len(pts) == 3 and spans_simplex(d, sorted(pts)):
+                        sets.append(frozenset(pts))
+                        coefs.append(tc * 2)          # |cross| is twice the area
         ps = au.params(fn)
         import itertools as _it
         if len(sets) == len(terms) and len(ps) == 4:
-            ok = qc == Fraction(1, 2) and len(terms) == 4 and set(sets) == {frozenset(c) for c in _it.combinations(ps, 3)}
+            ok = all(qc * c == Fraction(1, 2) for c in coefs) and len(terms) == 4 and set(sets) == {frozenset(c) for c in _it.combinations(ps, 3)}
     verdict(ok, site, "quad_area: not half the sum of the four triangles (both diagonal splits) of the quad",
             "each diagonal split covers the quad once; the mean of the two splits needs all four triangles", "quad area = mean of both splits")
     # aspect_ratio
